@@ -3,7 +3,17 @@
 Theorems : FinVerif/Props/C12.lean on the hand model of crr_tree_val (Model/C12.lean): probabilities in [0,1] iff
            d <= e^{(r-q)dt} <= u; on the lattice American >= European, American >= intrinsic, values >= 0 (induction
            on steps, monotone backward operator); FD/PSOR projection >= payoff.
-Tie      : crr_tree_val (compiled, both parities) vs the Lean model at Float on seeded inputs and step counts.
+           Props/C12b.lean (same model): European tree value = discounted binomial sum, put-call parity of the tree values for
+           every n, monotone / 1-Lipschitz / convex in payoff and strike, American = European when the exercise values are a
+           discounted sub-martingale (calls q <= 0 <= r, puts r <= 0 <= q), call <= spot, put <= strike.
+           Props/C12c.lean (hand model Model/C12FD.lean of calculate_fd_matrix, fd_roll_backwards, black_scholes_fd, PSOR):
+           consistency of dx / dxx, row sums 1 - dt theta r, discrete maximum principle and monotonicity of the theta step,
+           American >= European / payoff through the time loop, projection = complementarity, SOR fixed point solves the
+           interior equations.   Props/C12d.lean (GENERATED Gen/BAWP.lean: _fcall, _fput, baw_value given S*): call with
+           q <= 0 is European, exercise region = intrinsic, continuation >= European, jump at S* = -residual.
+Tie      : crr_tree_val (compiled, both parities), calculate_fd_matrix, fd_roll_backwards, black_scholes_fd, PSOR,
+           black_scholes_fd_PSOR, _fcall, _fput, baw_value (S* from the same newton_secant call), FXVanillaOption AMERICAN
+           (crr_tree_val_avg at t_exp) vs the Lean models at Float (compiled driver c12driver) on seeded inputs.
 Oracles  : every BlackScholesTypes value x option type over S/K in [0.3,3], r,q incl. r<q, r=q, r=0, sigma in
            [5%,100%]: European -> analytic within a measured bound at default resolution and smaller at higher
            resolution; American >= European, >= intrinsic; no-early-exercise cases equal European; implementations agree.
@@ -19,10 +29,11 @@ import warnings
 sys.path.insert(0, os.path.dirname(os.path.dirname(os.path.abspath(__file__))))
 import common as C  # noqa: E402
 from floatcmp import f2b, b2f  # noqa: E402
-from parallel import driver_parallel  # noqa: E402
+from parallel import driver_parallel  # noqa: E402,F401
+import exedriver  # noqa: E402
 
-GEN = []
-PROPS = ['FinVerif.Props.C12']
+GEN = ['BSF', 'BSP', 'BAWF', 'BAWP']      # BAWF / BAWP (tools/py2lean/registry/baw.py) import the Black-Scholes kernels BSF / BSP
+PROPS = ['FinVerif.Props.C12', 'FinVerif.Props.C12b', 'FinVerif.Props.C12c', 'FinVerif.Props.C12d']
 DRIVERS = ['FinVerif.Driver.C12']
 
 RULE = ('seeded parameter sets: S/K in [0.3,3] (half of them in [0.7,1.4]), t in {0.1,0.25,0.5,1,2}, r in '
@@ -31,7 +42,12 @@ RULE = ('seeded parameter sets: S/K in [0.3,3] (half of them in [0.7,1.4]), t in
         'FD grids {500, 2000}; a non-positive-rate set (r in {-3,-2,-1,-0.5}%, q in {0, -0.5%, r, r-1%, 2%}, t up to 3y, '
         'spots biased in the money) for CRR(200) / FD / EquityAmericanOption / FXVanillaOption(AMERICAN); FD parameters '
         'theta in {0.5,0.75,1}, smooth, num_std, num_time_steps; EquityBinomialTree: 7 payoff types x 2 exercise types x '
-        'S/K in {0.3..2.5} x steps {10,50,100,200}. Non-trivial = the pricer returned a finite number and the option is not worthless '
+        'S/K in {0.3..2.5} x steps {10,50,100,200}; FXVanillaOption AMERICAN_*: value dates on every weekday of January 2025, '
+        'expiries 5..400 days later (80 % from {7,...,365}), spot_days in {0,1,2,3}, r_d in {0,1,3,5}%, r_f in {0,2,5%,r_d}, '
+        'strikes within 1.5 sd of the spot; PSOR parameters theta in {0.5,0.6,0.75,0.9,1}, num_samples {400,600}, num_time_steps '
+        '{default,200,300}, num_std, smooth; model correspondence of calculate_fd_matrix / fd_roll_backwards / PSOR on random '
+        'non-uniform grids of 2..21 nodes and of black_scholes_fd / black_scholes_fd_PSOR on 10..80 samples, 5..30 steps, theta as above. '
+        'Non-trivial = the pricer returned a finite number and the option is not worthless '
         '(> 1e-8 K); cases are distinct draws from continuous laws.')
 
 # measured on the clean tree (notes/C12.md), relative to the strike K ----------------------------------------
@@ -49,6 +65,19 @@ AGREE_TOL_200 = 8e-4      # CRR(200/201 averaged) vs FD American / K, incl. nega
 FD_THETA_EURO = {0.5: 2e-5, 0.75: 1e-4, 1.0: 3e-4}   # FD(2001 nodes, 1000 steps) European error / K per theta (time error O(dt) for theta != 0.5)
 EBT_EURO = 4e-3           # EquityBinomialTree (n, n+1 averaged, n >= 50) vanilla European vs analytic / K
 APPROX_TOL = 0.012        # BAW vs CRR(400) inside the validity domain (r>0, t<=1, sigma<=50%) / K
+FD_MODEL_TOL = 1e-9       # calculate_fd_matrix / fd_roll_backwards / black_scholes_fd vs the Lean model (measured 3e-15)
+PSOR_MODEL_TOL = 5e-8     # PSOR / black_scholes_fd_PSOR vs the Lean model, relative to K: two SOR runs that stop one sweep
+                          # apart differ by at most sqrt(acc) = 3.2e-7 per node (measured 3e-15 when the sweep counts agree)
+FX_TREE_TOL = 1.5e-3      # FXVanillaOption AMERICAN (100/101 averaged tree) vs its own European value / vs CRR(400) at t_exp,
+                          # in units of K sigma sqrt(t_exp) (measured 5.1e-4)
+PSOR_THETA_EURO = {0.5: 2.5e-4, 0.6: 5e-4, 0.75: 8e-4, 0.9: 1.2e-3}   # PSOR(>= 400 nodes) European error / K per theta at 200 time
+                          # steps, scaled by 200/steps for fewer (measured over seeds 0-4: 7.3e-5, 1.4e-4, 1.8e-4, 2.4e-4)
+PSOR_FD_AGREE = 5e-6      # PSOR vs FINITE_DIFFERENCE American value at the same parameters / K (measured 5.4e-8)
+
+
+def run_model(ops):
+    """answers of the Lean model driver (compiled lean_exe `c12driver`; `lean --run` if it cannot be built)"""
+    return exedriver.run('c12driver', 'C12', ops)
 
 
 def quiet(fn, *a, **kw):
@@ -170,7 +199,7 @@ def run(ctx):
         inputs.append(dict(c, num_steps=n, option_type=ty, isEven=ev))
     if drivers_ok:
         try:
-            model = [b2f(s) for s in driver_parallel('C12', ops)]
+            model = [b2f(s) for s in run_model(ops)]
             nb = 0
             for x, m, inp in zip(impl, model, inputs):
                 d = abs(x - m) / max(1e-8, abs(m), 1e-6 * inp['K'])
@@ -184,6 +213,122 @@ def run(ctx):
     ctx.count('crr_tree_val vs model', len(ops), len(ops), sample={'input': inputs[0], 'impl': impl[0]})
 
     lap('crr-model')
+    # ------------------------------------------------------------------ 1b. finite differences / PSOR vs the Lean model (Model/C12FD.lean)
+    from financepy.models.finite_difference import calculate_fd_matrix, fd_roll_backwards, black_scholes_fd
+    from financepy.models.finite_difference_PSOR import black_scholes_fd_PSOR, PSOR
+    rng = ctx.rng('fd-model')
+
+    def fl(xs):
+        return ' '.join(f2b(float(x)) for x in xs)
+    ops, impl, inputs, tols = [], [], [], []
+    nmat = 24 if ctx.quick() else 300
+    for i in range(nmat):
+        n = rng.choice([2, 3, 4, 5, 8, 13, 21])
+        x = np.cumsum([rng.uniform(0.3, 2.0) for _ in range(n)]) + rng.uniform(0.0, 50.0)     # non-uniform increasing grid
+        rr = np.zeros(n) + rng.choice([-0.02, 0.0, 0.03, 0.1])
+        mu = np.array([rng.uniform(-0.1, 0.1) * xx for xx in x])
+        var = np.array([(xx * rng.uniform(0.05, 1.0)) ** 2 for xx in x])
+        dt = rng.choice([0.01, 0.002, 0.05])
+        th = rng.choice([0.5, 0.6, 0.75, 0.9, 1.0])
+        with np.errstate(all='ignore'):
+            Ai = quiet(calculate_fd_matrix, x, rr, mu, var, -dt, th, 0)
+            Ae = quiet(calculate_fd_matrix, x, rr, mu, var, dt, 1.0 - th, 0) if th != 1.0 else np.zeros((n, 3))
+        for (mat, dtv, thv) in ((Ai, -dt, th),) + (((Ae, dt, 1.0 - th),) if th != 1.0 else ()):
+            ops.append(f'fdmat {n} {f2b(dtv)} {f2b(thv)} {fl(x)} {fl(rr)} {fl(mu)} {fl(var)}')
+            impl.append([float(z) for z in mat.flatten()])
+            inputs.append(dict(function='calculate_fd_matrix', x=[float(z) for z in x], r=float(rr[0]), mu=[float(z) for z in mu],
+                               var=[float(z) for z in var], dt=dtv, theta=thv))
+            tols.append(('rel1', FD_MODEL_TOL))
+        res0 = np.array([[rng.uniform(0.0, 10.0) for _ in range(n)]])
+        out = fd_roll_backwards(res0.copy(), th, Ai=Ai, Ae=Ae)
+        ops.append(f'fdstep {n} {1 if th != 1 else 0} {1 if th != 0 else 0} {fl(Ae.flatten())} {fl(Ai.flatten())} {fl(res0[0])}')
+        impl.append([float(z) for z in out[0]])
+        inputs.append(dict(function='fd_roll_backwards', theta=th, Ae=[float(z) for z in Ae.flatten()],
+                           Ai=[float(z) for z in Ai.flatten()], res=[float(z) for z in res0[0]]))
+        tols.append(('rel1', FD_MODEL_TOL))
+        if i % 3 == 0 and n >= 3:
+            # the SOR iteration of PSOR on this matrix (diagonally dominant: converges), sweep count compared too
+            z_ = np.array([rng.uniform(0.0, 10.0) for _ in range(n)])
+            init = np.array([rng.uniform(0.0, 10.0) for _ in range(n)])
+            om = rng.choice([1.0, 1.2, 1.5, 1.8])
+            try:
+                rk, nl = PSOR(Ai, om, init.copy(), z_, 5000, 1e-13)
+                ops.append(f'sor {n} {f2b(om)} {f2b(1e-13)} {fl(Ai.flatten())} {fl(z_)} {fl(init)}')
+                impl.append([float(v_) for v_ in rk] + [float(nl)])
+                inputs.append(dict(function='PSOR', omega=om, acc=1e-13, Ai=[float(v_) for v_ in Ai.flatten()],
+                                   z=[float(v_) for v_ in z_], initial_value=[float(v_) for v_ in init]))
+                tols.append(('sor', 1e-6))
+            except RuntimeError:
+                pass
+    nfdm = 40 if ctx.quick() else 400
+    for i in range(nfdm):
+        c = gen_case(rng) if i % 4 else gen_case_neg(rng)
+        c['vol'] = max(c['vol'], 0.1)
+        ty = rng.choice([1, 2, 3, 4])
+        nts = rng.choice([0, 0, 5, 12, 30])
+        ns = rng.choice([10, 20, 31, 50, 80])
+        nstd = rng.choice([3, 5, 6])
+        th = rng.choice([0.5, 0.6, 0.75, 0.9, 1.0])
+        if i % 2 == 0:
+            val = float(quiet(black_scholes_fd, c['S'], c['vol'], c['t'], c['K'], c['r'], c['q'], ty, num_time_steps=(nts or None),
+                              num_samples=ns, num_std=nstd, theta=th))
+            ops.append(f"fd {f2b(c['S'])} {f2b(c['vol'])} {f2b(c['t'])} {f2b(c['K'])} {f2b(c['r'])} {f2b(c['q'])} {ty} {nts} {ns} "
+                       f"{f2b(float(nstd))} {f2b(th)}")
+            tols.append(('relK', FD_MODEL_TOL))
+            fn = 'black_scholes_fd'
+        else:
+            th = th if th != 1.0 else 0.6        # theta = 1 is rejected by the PSOR pricer (known finding, section 3g)
+            val = float(quiet(black_scholes_fd_PSOR, c['S'], c['vol'], c['t'], c['K'], c['r'], c['q'], ty,
+                              num_time_steps=(nts or None), num_samples=ns, num_std=nstd, theta=th))
+            ops.append(f"psor {f2b(c['S'])} {f2b(c['vol'])} {f2b(c['t'])} {f2b(c['K'])} {f2b(c['r'])} {f2b(c['q'])} {ty} {nts} {ns} "
+                       f"{f2b(float(nstd))} {f2b(th)}")
+            tols.append(('relK', PSOR_MODEL_TOL))
+            fn = 'black_scholes_fd_PSOR'
+        impl.append([val])
+        inputs.append(dict(c, function=fn, option_type=ty, num_time_steps=(nts or None), num_samples=ns, num_std=nstd, theta=th))
+    if drivers_ok:
+        try:
+            outs = run_model(ops)
+            nb = 0
+            for o, im, inp, (kind, tol) in zip(outs, impl, inputs, tols):
+                toks = o.split()
+                bad = None
+                if not toks or toks[0].startswith('E:') or toks[0] == 'bad-op':
+                    bad = f'model answered {o[:40]!r}'
+                else:
+                    if kind == 'sor':
+                        m = [b2f(z) for z in toks[:-1]] + [float(toks[-1])]
+                    else:
+                        m = [b2f(z) for z in toks]
+                    if len(m) != len(im):
+                        bad = f'{len(m)} model values for {len(im)} implementation values'
+                    elif kind == 'sor':
+                        d = max(abs(a - b) for a, b in zip(m[:-1], im[:-1]))
+                        madd('PSOR (SOR loop):impl-vs-model(abs)', d)
+                        madd('PSOR (SOR loop):|sweeps impl - model|', abs(m[-1] - im[-1]))
+                        if not d <= tol or abs(m[-1] - im[-1]) > 2:
+                            bad = f'max abs diff {d:.3e}, sweeps model {m[-1]:.0f} impl {im[-1]:.0f}'
+                    else:
+                        # NaN on both sides is agreement (e.g. a diverging SOR iteration on a 10-sample grid), as in section 1
+                        pairs = [(a, b) for a, b in zip(m, im) if not (math.isnan(a) and math.isnan(b))]
+                        if kind == 'relK':
+                            d = max([abs(a - b) / inp['K'] for a, b in pairs] or [0.0])
+                        else:
+                            d = max([abs(a - b) / max(1.0, abs(b)) for a, b in pairs] or [0.0])
+                        madd(f"{inp['function']}:impl-vs-model", d)
+                        if not d <= tol:
+                            bad = f'max diff {d:.3e} (bound {tol:g}); model {m[:3]}, impl {im[:3]}'
+                if bad:
+                    nb += 1
+                    if nb <= 3:
+                        short = {k: v for k, v in inp.items() if not isinstance(v, list)}
+                        ctx.broke(f"correspondence {inp['function']}: Lean model != implementation on {short}: {bad}")
+        except C.DriverError as e:
+            ctx.broke(f'model driver failed: {str(e)[:300]}')
+    ctx.count('calculate_fd_matrix / fd_roll_backwards / black_scholes_fd / PSOR / black_scholes_fd_PSOR vs model', len(ops), len(ops),
+              sample={'input': {k: v for k, v in inputs[-1].items() if not isinstance(v, list)}, 'impl': impl[-1]})
+
+    lap('fd-model')
     # ------------------------------------------------------------------ 2. CRR through the model object
     rng = ctx.rng('crr')
     ncrr = 1200 if ctx.quick() else 12000
@@ -419,6 +564,83 @@ def run(ctx):
                           clause='american-ge-european')
     ctx.count('EquityAmericanOption / FXVanillaOption(AMERICAN)', 2 * nprod, 2 * nprod)
     lap('products')
+    # ------------------------------------------------------------------ 3f. FXVanillaOption AMERICAN_*: spot lag, dates around weekends
+    from financepy.models.equity_crr_tree import crr_tree_val_avg
+    rng = ctx.rng('fx-american')
+    nfx = 150 if ctx.quick() else 2000
+    base_dt = Date(2, 1, 2025)
+    ops, impl, inputs = [], [], []
+    n_lag = 0
+    for i in range(nfx):
+        while True:
+            vdt = base_dt.add_days(rng.randrange(0, 28))
+            if vdt.weekday < 5:
+                break
+        ndays = rng.choice([7, 9, 10, 11, 12, 14, 18, 21, 30, 45, 60, 91, 182, 365]) if rng.random() < 0.8 else rng.randrange(5, 400)
+        edt = vdt.add_days(ndays)
+        spot_days = rng.choice([0, 1, 2, 3])
+        r_d = rng.choice([0.0, 0.01, 0.03, 0.05])
+        r_f = rng.choice([0.0, 0.0, 0.02, 0.05, r_d])
+        vol = rng.choice([0.08, 0.12, 0.2, 0.3])
+        s0 = 1.10
+        t_exp = (edt - vdt) / 365.0
+        k = s0 * math.exp(rng.uniform(-1.5, 1.5) * vol * math.sqrt(t_exp))
+        call = rng.random() < 0.5
+        ao, eo = (O.AMERICAN_CALL, O.EUROPEAN_CALL) if call else (O.AMERICAN_PUT, O.EUROPEAN_PUT)
+        fcase = dict(product='FXVanillaOption', side='call' if call else 'put', value_dt=str(vdt), expiry_dt=str(edt), spot_days=spot_days,
+                     spot_fx=s0, strike_fx=k, rd=r_d, rf=r_f, vol=vol, t_exp=t_exp)
+        try:
+            dom = DiscountCurveFlat(vdt, r_d)
+            fgn = DiscountCurveFlat(vdt, r_f)
+            am = float(quiet(FXVanillaOption(edt, k, 'EURUSD', ao, 1.0e6, 'USD', spot_days).value, vdt, s0, dom, fgn, BlackScholes(vol))['v'])
+            eu = float(quiet(FXVanillaOption(edt, k, 'EURUSD', eo, 1.0e6, 'USD', spot_days).value, vdt, s0, dom, fgn, BlackScholes(vol))['v'])
+        except Exception as e:  # noqa: BLE001
+            ctx.violation(f'FXVanillaOption.value raised {type(e).__name__}', fcase, clause='returns-value')
+            continue
+        # the rates the product derives (from the delivery lag) and the option life it must use (expiry - valuation date)
+        t_del = max((edt.add_weekdays(spot_days) - vdt.add_weekdays(spot_days)) / 365.0, 1e-10)
+        if abs(t_del - t_exp) > 1e-12:
+            n_lag += 1
+        rde = -math.log(dom.df_t(t_del)) / t_del
+        rfe = -math.log(fgn.df_t(t_del)) / t_del
+        fcase.update(t_del=t_del, american=am, european=eu)
+        scale = k * vol * math.sqrt(t_exp)
+        intr = max(s0 - k, 0.0) if call else max(k - s0, 0.0)
+        madd('FXVanillaOption American: (european - american)/(K sigma sqrt t)', (eu - am) / scale)
+        if am < eu - FX_TREE_TOL * scale:
+            ctx.violation('FXVanillaOption American value below the European value of the same product', fcase, clause='american-ge-european')
+        if am < intr - 1e-10 * k:
+            ctx.violation('FXVanillaOption American value below intrinsic', dict(fcase, intrinsic=intr), clause='american-ge-intrinsic')
+        if (call and r_f <= 0.0 and r_d >= 0.0) or ((not call) and r_d <= 0.0 and r_f >= 0.0):
+            madd('FXVanillaOption American: no-early-exercise |amer-euro|/(K sigma sqrt t)', abs(am - eu) / scale)
+            if abs(am - eu) > FX_TREE_TOL * scale:
+                ctx.violation('FXVanillaOption American != European although early exercise is never optimal', fcase,
+                              clause='no-early-exercise-equal')
+        ref = float(crr_tree_val_avg(s0, rde, rfe, vol, 400, t_exp, ao.value, k)['value'])
+        madd('FXVanillaOption American vs CRR(400) at t_exp /(K sigma sqrt t)', abs(am - ref) / scale)
+        if abs(am - ref) > FX_TREE_TOL * scale:
+            ctx.violation('FXVanillaOption American value far from the high-resolution tree value over the option life t_exp',
+                          dict(fcase, tree_400_at_t_exp=ref), clause='agreement')
+        ops.append(f"crravg {f2b(s0)} {f2b(rde)} {f2b(rfe)} {f2b(vol)} 100 {f2b(t_exp)} {ao.value} {f2b(k)}")
+        impl.append(am)
+        inputs.append(fcase)
+    if drivers_ok and ops:
+        try:
+            model = [b2f(z) for z in run_model(ops)]
+            nb = 0
+            for x, m, inp in zip(impl, model, inputs):
+                d = abs(x - m) / max(1e-8, abs(m), 1e-6 * inp['strike_fx'])
+                madd('FXVanillaOption American:impl-vs-model crr_tree_val_avg(100, t_exp)(rel)', d)
+                if not d <= 1e-9:
+                    nb += 1
+                    if nb <= 3:
+                        ctx.broke(f'correspondence FXVanillaOption(AMERICAN): Lean model of crr_tree_val_avg(s0, r_d, r_f, vol, 100, t_exp, ...) '
+                                  f'!= implementation on {inp} (model {m!r}, impl {x!r})')
+        except C.DriverError as e:
+            ctx.broke(f'model driver failed: {str(e)[:300]}')
+    ctx.count('FXVanillaOption AMERICAN (spot_days 0..3, dates around weekends)', 3 * nfx, 3 * nfx)
+    ctx.cov['fx_american_cases_with_t_del_ne_t_exp'] = n_lag
+    lap('fx-american')
 
     # ------------------------------------------------------------------ 3d. FD resolution / scheme parameters accepted by the model object
     rng = ctx.rng('fd-params')
@@ -468,6 +690,77 @@ def run(ctx):
                                   dict(case, american=a[1], european=an), clause='no-early-exercise-equal')
     ctx.count('FINITE_DIFFERENCE scheme parameters (theta, smooth, num_std, num_time_steps)', 2 * nfp, 2 * nfp)
     lap('fd-params')
+    # ------------------------------------------------------------------ 3g. PSOR scheme / resolution parameters accepted by the model object
+    rng = ctx.rng('psor-params')
+    npp = 36 if ctx.quick() else 400
+    for i in range(npp):
+        if i == 0:      # witness of known finding C12/psor-theta-one-valueerror, replayed first on every run
+            c = dict(S=100.0, t=1.0, K=105.0, r=0.05, q=0.02, vol=0.25)
+            theta = 1.0
+        else:
+            c = gen_case(rng)
+            c['vol'] = max(c['vol'], 0.1)
+            if rng.random() < 0.6:
+                c['r'] = max(c['r'], 0.03)
+            theta = [0.5, 0.6, 0.75, 0.9, 1.0][i % 5] if i % 11 else 1.0
+        params = {'theta': theta, 'num_samples': rng.choice([400, 400, 600])}
+        if rng.random() < 0.5:
+            params['num_time_steps'] = rng.choice([200, 300])
+        if rng.random() < 0.3:
+            params['num_std'] = 6
+        if rng.random() < 0.3:
+            params['smooth'] = True
+        trunc = abs(c['r'] - c['q']) * c['t'] > c['vol'] * math.sqrt(c['t'])
+        for call in (True, False):
+            eo, ao = (O.EUROPEAN_CALL, O.AMERICAN_CALL) if call else (O.EUROPEAN_PUT, O.AMERICAN_PUT)
+            an = euro(c, call)
+            case = dict(c, side='call' if call else 'put', scheme='PSOR', params=dict(params))
+            e = price(T.PSOR, c, eo, params=dict(params))
+            if theta == 1.0:
+                if e[0] == 'e':
+                    ctx.violation(f'PSOR raised {e[1]} for theta = 1 (fully implicit), which FINITE_DIFFERENCE accepts', dict(case, error=e[1]),
+                                  finding='C12/psor-theta-one-valueerror' if e[1] == 'ValueError' else None, clause='returns-value')
+                    continue
+            if e[0] != 'f' or math.isnan(e[1]):
+                ctx.violation('PSOR returned no value for accepted parameters', dict(case, got=e), clause='returns-value')
+                continue
+            err = abs(e[1] - an) / c['K']
+            # time error of the theta scheme is O((theta - 1/2) dt): the bound is stated at 200 steps and scaled for fewer
+            nsteps = params.get('num_time_steps') or (params['num_samples'] + 1) // 4
+            tol0 = PSOR_THETA_EURO.get(theta, 9e-4) * (max(1.0, 200.0 / nsteps) if theta != 0.5 else 1.0)
+            madd(f'PSOR theta={theta}:european-err/K x min(1, steps/200)' + (' (truncation regime)' if trunc else ''),
+                 err * (min(1.0, nsteps / 200.0) if theta != 0.5 else 1.0))
+            tol = max(tol0, FD_TRUNC_EURO if trunc else 0.0)
+            if err > tol:
+                ctx.violation(f'PSOR (theta={theta}) European value is {err:.2e} K from the analytic price (bound {tol:g})',
+                              dict(case, scheme_value=e[1], analytic=an), clause='european-converges')
+            if i % 2 == 0:
+                # same resolution for both pricers (their DEFAULT step counts differ: num_samples // 4 vs // 2)
+                params_a = dict(params, num_time_steps=nsteps)
+                a = price(T.PSOR, c, ao, params=dict(params_a))
+                f = price(T.FINITE_DIFFERENCE, c, ao, params=dict(params_a))
+                if a[0] != 'f' or math.isnan(a[1]):
+                    ctx.violation('PSOR returned no value for an American option', dict(case, got=a), clause='returns-value')
+                    continue
+                if a[1] < e[1] - DOM_TOL_FD * c['K'] or a[1] < intrinsic(c, call) - DOM_TOL_FD * c['K']:
+                    ctx.violation(f'PSOR (theta={theta}) American value below its European value / intrinsic',
+                                  dict(case, american=a[1], european=e[1], intrinsic=intrinsic(c, call)), clause='american-ge-european')
+                if f[0] == 'f':
+                    d = abs(a[1] - f[1]) / c['K']
+                    madd(f'PSOR-vs-FD american |diff|/K theta={theta}', d)
+                    if d > PSOR_FD_AGREE:
+                        ctx.violation(f'PSOR and FINITE_DIFFERENCE American values disagree at the same parameters (theta={theta})',
+                                      dict(case, psor=a[1], fd=f[1]), clause='agreement')
+                if i % 4 == 0:
+                    tr = price(T.CRR_TREE, c, ao, num_steps_per_year=200)
+                    if tr[0] == 'f':
+                        d = abs(a[1] - tr[1]) / c['K']
+                        madd('PSOR-vs-CRR200 american |diff|/K', d)
+                        if d > max(2.0 * AGREE_TOL_200, tol):
+                            ctx.violation(f'PSOR (theta={theta}) and CRR(200) American values disagree', dict(case, psor=a[1], crr=tr[1]),
+                                          clause='agreement')
+    ctx.count('PSOR scheme parameters (theta, num_samples, num_time_steps, num_std, smooth)', 2 * npp, 2 * npp)
+    lap('psor-params')
 
     # ------------------------------------------------------------------ 3e. EquityBinomialTree: every payoff x exercise type, deep ITM/OTM
     from financepy.products.equity.equity_binomial_tree import (EquityBinomialTree, EquityTreePayoffTypes as PT,
@@ -551,7 +844,7 @@ def run(ctx):
         inputs.append(dict(function='_value_once', S=S, K=K, r=r, q=q, vol=vol, t=t, num_steps=n1, sign=sign, exercise=ex.name))
     if drivers_ok and ops:
         try:
-            model = [b2f(z) for z in driver_parallel('C12', ops)]
+            model = [b2f(z) for z in run_model(ops)]
             nb = 0
             for x, m, inp in zip(impl, model, inputs):
                 d = abs(x - m) / max(1e-8, abs(m), 1e-6 * inp['K'])
@@ -633,6 +926,84 @@ def run(ctx):
     ctx.count('BARONE_ADESI / Bjerksund_Stensland', 4 * nap, 4 * nap)
 
     lap('approx')
+    # ------------------------------------------------------------------ 4b. generated closed-form parts of BAW (Gen/BAWF.lean) vs the code
+    from financepy.models.black_scholes_analytic import baw_value, _fcall, _fput
+    from financepy.utils.solver_1d import newton_secant
+    from financepy.utils.math import n_vect
+    rng = ctx.rng('baw-model')
+
+    def fput_as_compiled(si, t, k, r, q, v):
+        """what the Numba-compiled `_fput` evaluates: the `bs_value(..., -1)` term contributes 0 (the FinError is swallowed)
+        and q1 is built with 4 K (K = 1 - exp(-r t)) where baw_value has 4 M / K.  Used ONLY to characterise known finding
+        C12/baw-fput-wrong-residual."""
+        b = r - q
+        v2 = v * v
+        W = 2.0 * b / v2
+        Kk = 1.0 - np.exp(-r * t)
+        q1 = (1.0 - W - np.sqrt((W - 1.0) ** 2 + 4.0 * Kk)) / 2.0
+        d1 = (np.log(si / k) + (b + v2 / 2.0) * t) / (v * np.sqrt(t))
+        return float(si - k - 0.0 - (1.0 - np.exp(-q * t) * n_vect(-d1)) * si / q1)
+    ops, impl, inputs = [], [], []
+    nbm = 150 if ctx.quick() else 2000
+    for i in range(nbm):
+        c = gen_case(rng)
+        if c['r'] == 0.0:
+            c['r'] = 0.02       # r = 0 divides by zero (known finding C12/baw-zero-rate-division, section 4)
+        S, t, K, r, q, v = c['S'], c['t'], c['K'], c['r'], c['q'], c['vol']
+        si = K * rng.uniform(0.4, 2.5)
+        for nm, fn in (('fcall', _fcall), ('fput', _fput)):
+            try:
+                x = float(fn(si, t, K, r, q, v))
+            except Exception as e:  # noqa: BLE001
+                x = type(e).__name__
+            ops.append(f'{nm} {f2b(si)} {f2b(t)} {f2b(K)} {f2b(r)} {f2b(q)} {f2b(v)}')
+            impl.append(x)
+            inputs.append(dict(function='_' + nm, si=si, t=t, K=K, r=r, q=q, vol=v))
+        for phi in (1, -1):
+            try:
+                x = float(baw_value(S, t, K, r, q, v, phi))
+                ss = S if (phi == 1 and q <= 0.0) else float(newton_secant(_fcall if phi == 1 else _fput, x0=S, args=(t, K, r, q, v),
+                                                                           tol=1e-7, maxiter=50))
+            except Exception:  # noqa: BLE001   (non-convergence is reported by the code; section 4 handles it)
+                continue
+            ops.append(f'baw {f2b(S)} {f2b(t)} {f2b(K)} {f2b(r)} {f2b(q)} {f2b(v)} {phi} {f2b(ss)}')
+            impl.append(x)
+            inputs.append(dict(function='baw_value', S=S, t=t, K=K, r=r, q=q, vol=v, phi=phi, sstar_from_newton_secant=ss))
+    if drivers_ok:
+        try:
+            outs = run_model(ops)
+            nb = 0
+            for o, x, inp in zip(outs, impl, inputs):
+                bad = None
+                if o.startswith('E:'):
+                    if inp['function'] == '_fput' and o == 'E:FinError' and isinstance(x, float):
+                        # the model (Python semantics, theorem fput_always_raises) raises; the compiled function returns a number
+                        ref = fput_as_compiled(inp['si'], inp['t'], inp['K'], inp['r'], inp['q'], inp['vol'])
+                        same = abs(x - ref) <= 1e-9 * max(1.0, abs(ref)) or (math.isnan(x) and math.isnan(ref))
+                        ctx.violation('_fput (critical-price equation of the BAW put) calls bs_value with option type -1: FinError in Python, '
+                                      'silently 0 when compiled; the returned residual is not the BAW residual',
+                                      dict(inp, compiled_value=x, as_compiled_formula=ref),
+                                      finding='C12/baw-fput-wrong-residual' if same else None, clause='returns-value')
+                        continue
+                    if not (isinstance(x, str) and o == 'E:' + x):
+                        bad = f'model {o}, impl {x!r}'
+                elif o == 'bad-op' or isinstance(x, str):
+                    bad = f'model {o[:30]}, impl {x!r}'
+                else:
+                    m = b2f(o)
+                    d = abs(m - x) / max(1e-8, abs(x), 1e-6 * inp['K'])
+                    madd(f"{inp['function']}:impl-vs-generated-model(rel)", d)
+                    if not (d <= 1e-9 or (math.isnan(m) and math.isnan(x))):
+                        bad = f'model {m!r}, impl {x!r}'
+                if bad:
+                    nb += 1
+                    if nb <= 3:
+                        ctx.broke(f"correspondence {inp['function']}: generated model != implementation on {inp}: {bad}")
+        except C.DriverError as e:
+            ctx.broke(f'model driver failed: {str(e)[:300]}')
+    ctx.count('_fcall / _fput / baw_value (given S*) vs the generated model', len(ops), len(ops),
+              sample={'input': inputs[-1], 'impl': impl[-1]})
+    lap('baw-model')
     # ------------------------------------------------------------------ 5. LSMC (seeded, loose)
     rng = ctx.rng('lsmc')
     nls = 10 if ctx.quick() else 100
@@ -688,9 +1059,17 @@ def run(ctx):
         'the lattice theorems are about the hand model of crr_tree_val, tied to the compiled function by the seeded '
         'correspondence (relative 1e-9), under the probability condition d <= e^{(r-q)dt} <= u (cases outside it are counted)',
         'analytic reference = bs_value with the Hull polynomial N (6 decimals); bounds are set above that noise',
+        'finite-difference theorems (Props/C12c) are about the hand model Model/C12FD.lean (wind = 0, no smoothing), tied to '
+        'calculate_fd_matrix / fd_roll_backwards / black_scholes_fd / PSOR / black_scholes_fd_PSOR by seeded correspondence; the '
+        'maximum-principle / American >= European statements assume the sign conditions (explicit weights >= 0, implicit '
+        'off-diagonals <= 0, 1 + dt theta r > 0), which hold iff the local Peclet / CFL conditions hold (fd_interior_offdiag_*_iff); '
+        'the implicit solve enters through the post-condition of solve_tridiagonal_matrix proved in C20 (thomas_solves_tridiagonal)',
+        'BAW theorems (Props/C12d) are about the GENERATED model Gen/BAWP.lean with the root-finder call replaced by a parameter S* '
+        '(its post-condition f(S*) = 0 is a hypothesis where used) and the normal cdf abstracted to any function with values in [0,1]',
     ]
-    return C.finish(ctx, 'proof', 'lake build FinVerif.Props.C12 && lake env lean .cache/audit/Audit_C12.lean',
-                    C.TRUSTED_BASE_COMMON + ['hand model Model/C12.lean tied by correspondence only'], RULE)
+    return C.finish(ctx, 'proof', 'lake build ' + ' '.join(PROPS) + ' && lake env lean .cache/audit/Audit_C12.lean',
+                    C.TRUSTED_BASE_COMMON + ['hand models Model/C12.lean, Model/C12FD.lean tied by correspondence only',
+                                             'registry/baw.py source preparation (argument unpacking, solver call -> parameter)'], RULE)
 
 
 
@@ -738,6 +1117,27 @@ def replay(ctx, path):
     from financepy.models.black_scholes_analytic import bs_value
     c = v['case']
     print('replay case:', json.dumps(c)[:500], 'clause:', v.get('clause'))
+    if c.get('product') == 'FXVanillaOption' and 'spot_days' in c:
+        from financepy.utils.date import Date
+        from financepy.market.curves.discount_curve_flat import DiscountCurveFlat
+        from financepy.products.fx.fx_vanilla_option import FXVanillaOption
+        months = ['JAN', 'FEB', 'MAR', 'APR', 'MAY', 'JUN', 'JUL', 'AUG', 'SEP', 'OCT', 'NOV', 'DEC']
+
+        def pdate(txt):
+            d_, m_, y_ = txt.split('-')
+            return Date(int(d_), months.index(m_) + 1, int(y_))
+        vdt, edt = pdate(c['value_dt']), pdate(c['expiry_dt'])
+        call = c['side'] == 'call'
+        out = {}
+        for nm, ot in (('european', O.EUROPEAN_CALL if call else O.EUROPEAN_PUT), ('american', O.AMERICAN_CALL if call else O.AMERICAN_PUT)):
+            fx = FXVanillaOption(edt, c['strike_fx'], 'EURUSD', ot, 1.0e6, 'USD', c['spot_days'])
+            out[nm] = float(quiet(fx.value, vdt, c['spot_fx'], DiscountCurveFlat(vdt, c['rd']), DiscountCurveFlat(vdt, c['rf']),
+                                  BlackScholes(c['vol']))['v'])
+        out['t_exp'] = (edt - vdt) / 365.0
+        out['t_del'] = (edt.add_weekdays(c['spot_days']) - vdt.add_weekdays(c['spot_days'])) / 365.0
+        print(out)
+        print(f'VIOLATION property=C12 replay={path}')
+        return 1
     if 'scheme' not in c or 'side' not in c:
         print('no dedicated replay for this component; re-run ./check C12 with VERIF_SEED=%s' % rp.get('seed'))
         return 1
@@ -746,7 +1146,10 @@ def replay(ctx, path):
     out = {}
     for nm, ot in (('european', O.EUROPEAN_CALL if call else O.EUROPEAN_PUT), ('american', O.AMERICAN_CALL if call else O.AMERICAN_PUT)):
         try:
-            out[nm] = float(quiet(BlackScholes(c['vol'], bt).value, c['S'], c['t'], c['K'], c['r'], c['q'], ot))
+            kw = {'params': dict(c['params'])} if isinstance(c.get('params'), dict) else {}
+            if 'num_steps' in c and bt == T.CRR_TREE:
+                kw = {'num_steps_per_year': c['num_steps']}
+            out[nm] = float(quiet(BlackScholes(c['vol'], bt, **kw).value, c['S'], c['t'], c['K'], c['r'], c['q'], ot))
         except Exception as e:  # noqa: BLE001
             out[nm] = type(e).__name__
     out['analytic'] = float(bs_value(c['S'], c['t'], c['K'], c['r'], c['q'], c['vol'], 1 if call else 2))
